@@ -301,6 +301,10 @@ def digest(obj) -> str:
     return hashlib.blake2b(json.dumps(obj, sort_keys=True, default=repr).encode(), digest_size=8).hexdigest()
 
 
+class CaseTimeout(BaseException):
+    """raised by the per-case watchdog (BaseException: must not be swallowed by `except Exception` in harness code)"""
+
+
 class Prop:
     """Base class of a property check.  Subclasses define:
       id, model (driver name or None), rule (text), assumptions, trusted (list of str)
@@ -339,12 +343,33 @@ class Prop:
         pass
 
     # ---- engine ------------------------------------------------------------------------------
+    #: wall-clock limit for one case (seconds; None = the property manages time itself).  A case that does not
+    #: answer is reported as a failing input instead of hanging the check (shards are single-threaded processes).
+    case_watchdog = 300
+
     def compare_case(self, case, res: ShardResult, pending):
+        import signal
+        import threading
+        armed = self.case_watchdog is not None and threading.current_thread() is threading.main_thread()
+        if armed:
+            def fire(signum, frame):
+                raise CaseTimeout()
+            old = signal.signal(signal.SIGALRM, fire)
+            signal.setitimer(signal.ITIMER_REAL, self.case_watchdog)
         try:
             lines, impl_out = self.execute(case, res)
+        except CaseTimeout:
+            res.failures.append(Failure(signature="no-answer:case", what=f"the implementation did not answer within "
+                                        f"{self.case_watchdog} s on this case (hang / runaway loop)", case=case))
+            res.evaluations += 1
+            return
         except Exception:
             res.errors.append({"case": case, "trace": traceback.format_exc()[-1500:]})
             return
+        finally:
+            if armed:
+                signal.setitimer(signal.ITIMER_REAL, 0)
+                signal.signal(signal.SIGALRM, old)
         res.evaluations += 1
         if self.nontrivial(case, impl_out):
             res.nontrivial.add(digest(case))
